@@ -98,6 +98,16 @@ CHECKS = {
             "For every integer type and view: phys writes with factors of several magnitudes and both signs store a nearest integer of value/factor and read back within half a step; description writes store exactly the named value and read back the description; every contiguous bit range within min(32, width) bits in five spellings (bit number, list, slice, slice with step, defined name) changes exactly those bits and reads them back.",
             "Field values fit their field; ties may round either way.",
             "DESIGN.md section 4, C20"),
+    "C08": ("exploration",
+            "generated dictionary models written by an independent EDS/DCF writer with seeded spelling choices, imported by the real importer (StringIO and file path) and compared attribute by attribute with the model",
+            "For generated dictionaries (all data/access types, defaults, parameter values, signed limits of every width as two's complement hex or negative decimal, $NODEID-relative values, records, arrays, CompactSubObj arrays with/without name list, DOMAIN object type, missing ObjectType, device info, comments, bit rate, node id explicit / from file / absent, .eds/.dcf) every object, kind, name, sub-index, type, access, PDO flag, default, parameter value, limit, relative flag and device-information field of the import must equal the model, and lookups by index, name and 'Parent.Child' must reach the same object.",
+            "Names are unique and free of ';', '#', '.'; octal spellings, sparse name lists and limits on REAL types are not generated.",
+            "DESIGN.md section 4, C08"),
+    "C14": ("exploration",
+            "generated dictionaries (built in code or obtained by import) exported by the real exporter to three destination kinds, re-imported and compared with the model; document equality modulo [FileInfo]",
+            "For generated dictionaries in the communication, manufacturer and profile areas the export as EDS or DCF to a file name, an open stream and stdout followed by import must preserve objects, kinds, names, sub-indices, data/access types, PDO flag, defaults (negative ones too), limits, storage locations, factor/unit/description, device information and comments, and for DCF parameter values, bit rate and node id; the three destinations must produce the same document apart from the [FileInfo] time stamps.",
+            "ASCII string values without surrounding blanks; limits on REAL types are not generated.",
+            "DESIGN.md section 4, C14"),
 }
 
 NOT_BUILT_REASON = "check not built yet in this round (build in progress; see DESIGN.md section 4 for its design)"
